@@ -7,6 +7,7 @@ the script only through edit_list / edits().
 import ast
 
 from .. import e1
+from ..astx import code
 from ..astx import self_attr, walk_no_nested, dotted, call_name, parent, resolve_local, func_params, \
     flatten_conditions, dominating_conditions, terminates, block_of, decorator_names
 from ..core import norm
@@ -465,7 +466,7 @@ def r03e(ctx):
     rets = [r for r in walk_no_nested(mt.node) if isinstance(r, ast.Return)]
     ok_m = rets and all(self_attr(r.value) == "_match" for r in rets)
     me = m.method(m.need_class("MultiSetEdit"), "edits")
-    me_txt = ast.unparse(me.node).replace(" ", "")
+    me_txt = code(me.node).replace(" ", "")
     ok_e = "self._matcher.matching.items()" in me_txt or "self._matcher.matching.values()" in me_txt
     if ok_b and ok_m and ok_e:
         ctx.proved("R03e", b.file, "WeightedBipartiteMatcher.bounds", b.node, "one matching for cost and script",
@@ -484,7 +485,7 @@ def r03c(ctx):
                      "refines before answering")
     et = m.need_class("EditedTreeNode")
     ec = m.method(et, "edited_cost")
-    src = ast.unparse(ec.node)
+    src = code(ec.node)
     if "self.edit_list" in src and "tighten_bounds()" in src and "upper_bound" in src and "sum(" in src:
         ctx.proved("R03c", ec.file, "EditedTreeNode.edited_cost", ec.node, "edited_cost",
                    "tightens every edit in edit_list to convergence, then sums their upper bounds")
@@ -515,7 +516,7 @@ def r03c(ctx):
     # CompoundEdit.on_diff recurses over self.edits()
     ce = m.find_class("CompoundEdit")
     od = m.method(ce, "on_diff") if ce else None
-    if od is not None and "self.edits()" in ast.unparse(od.node) and "edit.on_diff(edit.from_node)" in ast.unparse(od.node):
+    if od is not None and "self.edits()" in code(od.node) and "edit.on_diff(edit.from_node)" in code(od.node):
         ctx.proved("R03c", od.file, "CompoundEdit.on_diff", od.node, "on_diff recursion",
                    "the annotated tree receives exactly the sub-edits edits() lists")
     else:
